@@ -129,7 +129,7 @@ func runC03(r *core.Run) int {
 				return
 			}
 			hit := false
-			for s := 0; s <= len(runes); s++ {
+			for s := 0; s <= len(runes); s += offsetStep(len(runes), s) {
 				detail, got, want, incon, nt := accelCompare(re, runes, s)
 				l.Eval(1)
 				if incon != "" {
